@@ -190,6 +190,8 @@
 //!
 //! [![GitHub Sponsors](https://img.shields.io/badge/sponsor-30363D?style=for-the-badge&logo=GitHub-Sponsors&logoColor=#EA4AAA)](https://github.com/sponsors/mikemiles-dev)
 
+#[cfg(any(kani, netflow_parser_verif))]
+pub mod verif_shim;
 pub mod netflow_common;
 pub mod protocol;
 pub mod static_versions;
@@ -208,7 +210,10 @@ use variable_versions::v9::{V9, V9Parser};
 use nom_derive::{Nom, Parse};
 use serde::Serialize;
 
+#[cfg(not(any(kani, netflow_parser_verif)))]
 use std::collections::HashSet;
+#[cfg(any(kani, netflow_parser_verif))]
+use crate::verif_shim::VSet as HashSet;
 
 /// Enum of supported Netflow Versions
 #[derive(Debug, Clone, Serialize)]
